@@ -342,6 +342,7 @@ class Program:
         self.inst = d['instances']
         self.types = {int(k): v for k, v in d['types'].items()}
         self.allocs = d.get('allocs', {})
+        self.tls = d.get('tls_statics', {})
         self.roots = d['roots']
         self.clone_impls = d.get('clone_impls', [])
         self._kind = {}
@@ -1351,6 +1352,13 @@ class Exec:
         x = rv.get('ShallowInitBox')
         if x is not None:
             return self.M.shallow_init_box(self, self.operand(frame, x[0]), x[1])
+        if 'ThreadLocalRef' in rv:
+            # #[thread_local] static (thread_local! with a const initialiser): one thread is modelled, so it is a plain static
+            key = json.dumps(rv['ThreadLocalRef'], separators=(',', ':'))
+            st = self.p.tls.get(key)
+            if st is None:
+                raise Unsupported(f"thread-local static {key} not in the dump")
+            return self.static_ref(('tls', key), st)
         raise Unsupported(f"rvalue {list(rv.keys())}")
 
     def mkref(self, cell, path):
@@ -1413,6 +1421,11 @@ class Exec:
                 raise Unsupported(f"unresolved fn item {t['str']}")
             return self.call(t['fn_inst'], list(args))
         if isinstance(c, FnPtrV):
+            fi = self.p.inst.get(c.inst)
+            if fi is not None and 'body' in fi and fi['arg_count'] == len(args) + 1 and self.p.kind(fi['locals'][1])[0] == 'closure':
+                # a capture-less closure coerced to a fn pointer: the pointer is the FnOnce::call_once shim, whose first
+                # argument is the (zero-sized) closure value itself
+                return self.call(c.inst, [self.zst(fi['locals'][1])] + list(args))
             return self.call(c.inst, list(args))
         if isinstance(c, ClosureV):
             t = self.p.ty(c.ty)
